@@ -54,7 +54,7 @@ let handle (line : string) : string =
       if not !saw_unk then arpa_tbl := ([N0], (!unk_prob, Z0)) :: !arpa_tbl;
       let inv = function Loaded t -> if tinv_check (nat_of_int !order) t !arpa_tbl then "1" else "0" | LoadError _ -> "-" in
       let flat = function Loaded t -> if flat_hyp_check t then "1" else "0" | LoadError _ -> "-" in
-      "loaded P=" ^ loaded_str !tp ^ " T=" ^ loaded_str !tt ^ " invP=" ^ inv !tp ^ " invT=" ^ inv !tt ^ " flatP=" ^ flat !tp ^ " flatT=" ^ flat !tt
+      "loaded P=" ^ loaded_str !tp ^ " T=" ^ loaded_str !tt ^ " invP=" ^ inv !tp ^ " invT=" ^ inv !tt ^ " flatP=" ^ flat !tp ^ " flatT=" ^ flat !tt ^ " invR=" ^ inv !tr ^ " extR=" ^ (match !tr with Loaded t -> if ext_ctx_check t then "1" else "0" | LoadError _ -> "-")
   | "S" :: kd :: bos :: ws ->
       let k = if kd = "P" || kd = "R" then Probing else Trie in
       (match (if kd = "P" then !tp else if kd = "R" then !tr else !tt) with
